@@ -65,7 +65,11 @@ func genQueryText(g *hx.Gen) string {
 
 func urlFields(u *url.URL, raw string) []string {
 	auth := u.Host
-	if u.User != nil {
+	if !strings.Contains(raw, u.Host) {
+		// net/url percent-DECODES non-ASCII escapes in a host (//1%a1 has host "1\xa1"); rrrouter's
+		// destinations are not written that way: such a host is outside the compared domain
+		auth = "*"
+	} else if u.User != nil {
 		// Userinfo.String() re-escapes the user name and password ("@." prints as "%40."); rrrouter never
 		// looks at the userinfo, so when the printed form is not the text that was parsed only the host is compared.
 		ui := u.User.String()
